@@ -156,6 +156,8 @@ pub fn check_inv(prop : &str, inv : &Inv, runner : &Runner, stats : Option<&mut 
                 {
                     s.inc("probe.cancelled_dependent_waited_for_late_sender");
                 }
+                let closed = inv.res.events.iter().filter(|e| match &e.kind { Ev::Send{ ok : false, .. } | Ev::Recv{ ok : false, .. } => true, _ => false }).count();
+                if closed > 0 { s.add("probe.send_or_recv_on_closed_channel", closed as u64); }
                 if inv.model.is_err() { s.inc("c05.invalid_graph_invocations"); }
             }
             vs
